@@ -33,7 +33,7 @@ static void run(int mut) {
     else if (mut && IN_create) P(ec == 0 && n_emplace == 1 && key_ok, "create_if_missing inserts the member with the exact token bytes");
     else P(ec != 0 /* KEY_NOT_FOUND today; any error code is a refusal */ && n_at_key == 0 && n_emplace == 0, "missing member: key_not_found, document untouched");
   } else P(ec != 0 /* EXPECTED_OBJ_OR_ARR today; any error code is a refusal */ && n_at_index + n_at_key + n_emplace == 0, "scalar target: expected_object_or_array");
-  WIT(N == 0 ? ec != 0 : (ec == 0 && IN_kind == 1 && (N < 2 || at_index >= 10)));
+  WIT(N == 0 ? ec != 0 : N >= 21 ? (ec != 0 && IN_kind == 1 && s[0] == '9' && s[N - 1] == '7') /* 21 digits never fit size_t: the reachable end is the refusal */ : (ec == 0 && IN_kind == 1 && (N < 2 || at_index >= 10)));
 }
 HARNESS(h_resolve_const) { run(0); }
 HARNESS(h_resolve_mut) { run(1); }
